@@ -782,3 +782,88 @@ func checkReplayReadOnly(c *Ctx, p *Prog, R *BusRoles, rule string) {
 	}
 	c.Check(n == 1, rule, "EventStore.Append/one-caller", "", "exactly one call site of EventStore.Append in package ebu (the persist function)", fmt.Sprintf("EventStore.Append has %d call sites in package ebu (want exactly one, in the persist function)", n))
 }
+
+// checkMaterializerReplay (C11.R2): state.Materializer.Replay hands its own arguments
+// straight to bus.Replay with Apply as the callback — it does not move the start offset.
+func checkMaterializerReplay(c *Ctx, p *Prog, rule string) {
+	f := p.Method(PkgState, "Materializer", "Replay")
+	if f == nil {
+		c.Unresolved(rule, "UNRESOLVED-ANCHOR/state.Materializer.Replay", "method not found")
+		return
+	}
+	ok := false
+	for _, b := range f.Blocks {
+		for _, in := range b.Instrs {
+			call, isCall := in.(*ssa.Call)
+			if !isCall {
+				continue
+			}
+			sc := call.Common().StaticCallee()
+			if sc == nil || sc.Name() != "Replay" || recvTypeName(sc) != "EventBus" || len(call.Common().Args) != 4 {
+				continue
+			}
+			a := call.Common().Args
+			fromOK := stripConv(a[2]) == ssa.Value(f.Params[3])
+			ctxOK := stripConv(a[1]) == ssa.Value(f.Params[1])
+			busOK := stripConv(a[0]) == ssa.Value(f.Params[2])
+			cbOK := false
+			if mc, isMC := stripConv(a[3]).(*ssa.MakeClosure); isMC {
+				// bound method value m.Apply
+				if strings.HasPrefix(mc.Fn.Name(), "Apply") && len(mc.Bindings) == 1 && stripConv(mc.Bindings[0]) == ssa.Value(f.Params[0]) {
+					cbOK = true
+				}
+			}
+			ok = fromOK && ctxOK && busOK && cbOK
+			if !fromOK {
+				c.Violate(rule, "state.Materializer.Replay/start-offset", p.Pos(in.Pos()), "Materializer.Replay does not replay from the offset it was given (it substitutes another start offset): events between the requested offset and the substituted one are never applied although Replay returns nil", nil)
+				return
+			}
+		}
+	}
+	c.Check(ok, rule, "state.Materializer.Replay/delegates-unchanged", p.Pos(f.Pos()), "bus.Replay(ctx, from, m.Apply) with the caller's arguments", "Materializer.Replay does not delegate to bus.Replay(ctx, from, m.Apply) with its own arguments")
+}
+
+// checkMemoryStreamPolls (C11.R3): the in-memory stream has no driver that could notice a
+// cancelled context, so it must poll the context before every yield of an event.
+func checkMemoryStreamPolls(c *Ctx, p *Prog, rule string) {
+	m := p.Method(PkgBus, "MemoryStore", "ReadStream")
+	if m == nil || len(m.AnonFuncs) == 0 {
+		c.Unresolved(rule, "UNRESOLVED-ANCHOR/MemoryStore.ReadStream", "iterator closure not found")
+		return
+	}
+	it := m.AnonFuncs[0]
+	li := loopsOf(it)
+	n := 0
+	for _, b := range it.Blocks {
+		for _, in := range b.Instrs {
+			call, ok := in.(*ssa.Call)
+			if !ok || !isDynamicCall(call.Common()) || len(call.Common().Args) != 2 {
+				continue
+			}
+			if k, isNil := call.Common().Args[0].(*ssa.Const); isNil && k.Value == nil {
+				continue // yield(nil, err)
+			}
+			n++
+			h := li.headerOf[b]
+			polled := false
+			if h != nil {
+				for blk := range li.body[h] {
+					for _, x := range blk.Instrs {
+						if _, _, _, isPoll := ctxDoneSelect(x); isPoll && blk.Dominates(b) && blk != h || isPollAt(x) && blk == h {
+							polled = true
+						}
+					}
+				}
+			}
+			c.Check(polled, rule, "MemoryStore.ReadStream/context-polled-before-every-yield", p.Pos(in.Pos()), "a poll of ctx.Done() in the same iteration dominates the yield of each event", "the in-memory stream does not poll its context before every event it yields (the poll is conditional or outside the loop): a replay cancelled mid-stream runs to the end and returns nil")
+		}
+	}
+	if n == 0 {
+		c.Unresolved(rule, "MemoryStore.ReadStream/yield-sites", "no yield of an event found")
+	}
+}
+
+func isPollAt(x ssa.Instruction) bool {
+	_, _, _, ok := ctxDoneSelect(x)
+	return ok
+}
